@@ -9,13 +9,14 @@ sys.path.insert(0, V)
 from rules import factcache, normalize
 
 fns = set()
-shape = {"adts": {}, "fns": {}}
+shape = {"adts": {}, "fns": {}, "enums": []}
 for cfg in ("default", "all", "none", "rel"):
     raw = json.load(open(factcache.gen("/repo", cfg)))
     for b in raw["bodies"]:
         fns.add(b["path"])
     for f in raw["fns"]:
         fns.add(f["path"])
+    shape["enums"] = sorted(set(shape["enums"]) | {a["path"] for a in raw["adts"] if a["kind"] == "Enum"})
     s = normalize.shape_of(raw)
     for k in ("adts", "fns"):
         for p, v in s[k].items():
